@@ -23,6 +23,9 @@ PLAIN_NAMES = ["id", "name", "a", "b1", "col_x", "Amount", "created_at", "user_i
                "price", "qty", "ZZ", "desc_", "t", "val", "Code", "n_items", "flag", "ts"]
 
 # (text tokens, expected value)
+# pg_dump style casts, also to types whose name has two words (the value is reported verbatim, blanks included)
+CAST_DEFAULTS = ["'n/a'::character varying", "'x'::text", "'0'::double precision", "'p'::public.vis", "0::numeric", "'101'::bit varying",
+                 "'a b'::character varying", "'{}'::jsonb", "NULL::character varying"]
 DEFAULTS = [
     (N(0), 0), (N(1), 1), (N(42), 42), (N(12345), 12345), (N(1234567890123), 1234567890123),
     (L("'a'"), "'a'"), (L("'abc'"), "'abc'"), (L("'N/A'"), "'N/A'"), (L("''"), "''"), (L("'Hello World'"), "'Hello World'"),
@@ -33,7 +36,7 @@ DEFAULTS = [
     (paren(L("'N'")), "'N'"), (paren(L("''")), "''"), (paren(L("'a b'")), "'a b'"), (paren(N(0)), 0), (paren(N(15)), 15),
     (paren(T("now()")), "now()"), (paren(T("NULL")), "NULL"), (paren(T("-1")), "-1"), (paren(T("1.5")), "1.5"), (T("+5"), "+5"),
     (paren(T("getdate()")), "getdate()"),
-] + [(T(d), d) for d in DECIMALS] + [(paren(T(d)), d) for d in DECIMALS[:4]]
+] + [(T(d), d) for d in DECIMALS] + [(paren(T(d)), d) for d in DECIMALS[:4]] + [(T(d), d) for d in CAST_DEFAULTS]
 
 ACTIONS = [None, "CASCADE", "RESTRICT", "cascade", "Restrict"]
 
